@@ -1,1 +1,89 @@
-From NB Require Import Merge.Render Merge.RenderProofs.
+(* C07 -- default merge neither drops nor invents source lines; real conflicts are flagged.
+   Statements only; models in Merge/Render.v, proofs in Merge/RenderProofs.v. *)
+From Coq Require Import List NArith ZArith Bool.
+From NB Require Import Base.Json.
+From NB Require Import Base.PyStr.
+From NB Require Import Diff.DiffFormat.
+From NB Require Import Merge.Render.
+From NB Require Import Merge.RenderProofs.
+Import ListNotations.
+
+(* ---- the built-in renderer (prettyprint.format_merge_render_lines / builtin_merge_render): no hypothesis *)
+Theorem builtin_survival : forall base local remote x,
+  In x local \/ In x remote ->
+  In (chomp x) (map chomp (format_merge_render_lines base local remote)).
+Proof. exact RenderProofs.builtin_survival. Qed.
+Print Assumptions builtin_survival.
+
+Theorem builtin_provenance : forall base local remote y,
+  In y (format_merge_render_lines base local remote) ->
+  In (chomp y) (map chomp local) \/ In (chomp y) (map chomp remote) \/ is_marker (chomp y) = true.
+Proof. exact RenderProofs.builtin_provenance. Qed.
+Print Assumptions builtin_provenance.
+
+Theorem builtin_flags : forall base local remote,
+  (snd (builtin_merge_render base local remote) = 0%Z <-> local = remote) /\
+  (local = remote -> fst (builtin_merge_render base local remote) = local) /\
+  (local <> remote ->
+     snd (builtin_merge_render base local remote) = 1%Z /\
+     exists pre lo re post,
+       map chomp (splitlines local) = map chomp (pre ++ lo) /\
+       map chomp (splitlines remote) = map chomp (pre ++ re) /\
+       (forall x, In x post -> In x lo) /\
+       map chomp (format_merge_render_lines (splitlines base) (splitlines local) (splitlines remote))
+       = map chomp (assembled pre lo re post) /\
+       fst (builtin_merge_render base local remote)
+       = concat (format_merge_render_lines (splitlines base) (splitlines local) (splitlines remote))).
+Proof. exact RenderProofs.builtin_flags. Qed.
+Print Assumptions builtin_flags.
+
+(* ---- resolve_strategy_inline_source, any text-merge tool whose answer to THIS call meets the contract *)
+Theorem inline_source_survival : forall tool base local remote d x,
+  resolve_strategy_inline_source tool base local remote = Some d ->
+  tool_contract tool base local remote ->
+  In x (side_lines local ++ side_lines remote) -> nonblank x = true ->
+  In x (tlines base) \/ In x (tlines (d_source d)).
+Proof. exact RenderProofs.inline_source_survival. Qed.
+Print Assumptions inline_source_survival.
+
+Theorem inline_source_provenance : forall tool base local remote d y,
+  resolve_strategy_inline_source tool base local remote = Some d ->
+  tool_contract tool base local remote ->
+  In y (tlines (d_source d)) -> nonblank y = true ->
+  In y (tlines base) \/ In y (side_lines local) \/ In y (side_lines remote) \/ is_marker y = true.
+Proof. exact RenderProofs.inline_source_provenance. Qed.
+Print Assumptions inline_source_provenance.
+
+Theorem inline_source_flags : forall tool base local remote d,
+  resolve_strategy_inline_source tool base local remote = Some d ->
+  tool_contract tool base local remote ->
+  (local = None \/ remote = None -> d_conflict d = true) /\
+  (forall l r x y, local = Some l -> remote = Some r -> In (x, y) (clashes base l r) ->
+     d_conflict d = true /\
+     In x (fst (branches Outside (tlines (d_source d)))) /\
+     In y (snd (branches Outside (tlines (d_source d))))).
+Proof. exact RenderProofs.inline_source_flags. Qed.
+Print Assumptions inline_source_flags.
+
+(* ---- make_inline_cell_conflict *)
+Theorem inline_cells_keep_both : forall (cell : Type) (mk : pystr -> cell) base_cells start lvals lremove rvals rremove c,
+  In c lvals \/ In c rvals ->
+  In c (make_inline_cell_conflict cell mk base_cells start lvals lremove rvals rremove).
+Proof. exact RenderProofs.inline_cells_keep_both. Qed.
+Print Assumptions inline_cells_keep_both.
+
+Theorem inline_cells_provenance : forall (cell : Type) (mk : pystr -> cell) base_cells start lvals lremove rvals rremove c,
+  In c (make_inline_cell_conflict cell mk base_cells start lvals lremove rvals rremove) ->
+  In c lvals \/ In c rvals \/ In c base_cells \/ c = mk m0_text \/ c = mk m1_text \/ c = mk m2_text.
+Proof. exact RenderProofs.inline_cells_provenance. Qed.
+Print Assumptions inline_cells_provenance.
+
+(* ---- delete-vs-edit: the deletion is countered whenever the other side patched the source *)
+Theorem countered_deletion_keeps_cell : forall f d sd,
+  In (DPatch (KS p_source) sd) d ->
+  (exists e rest, sd = e :: rest /\ is_patch e = false) ->
+  exists cd,
+    delete_vs_patch default_counters (S (S f)) d cell_path default_transients = CounterDeletion cd /\
+    In (CParentDeleted (KS p_source)) cd.
+Proof. exact RenderProofs.countered_deletion_keeps_cell. Qed.
+Print Assumptions countered_deletion_keeps_cell.
